@@ -311,14 +311,11 @@ def evalUnary (neg negSign : Bool) (a : V) : Except String V :=
   else .ok r
 
 /-- `FilterApplied(name)` -/
-def filterApplied (name : Bytes) : Nat → Expr → Bool
-  | 0, _ => false
-  | fuel+1, e =>
-    match e with
-    | .filtered _ chain _ => chain.any fun | .mk n _ _ => n == name
-    | .unary _ _ e => filterApplied name fuel e
-    | .bin _ a c _ => filterApplied name fuel a && filterApplied name fuel c
-    | _ => false
+def filterApplied (name : Bytes) : Expr → Bool
+  | .filtered _ chain _ => chain.any fun | .mk n _ _ => n == name
+  | .unary _ _ e => filterApplied name e
+  | .bin _ a c _ => filterApplied name a && filterApplied name c
+  | _ => false
 
 /-! ### spaceless (`tagSpacelessRegexp`, leftmost-first semantics) -/
 
@@ -951,7 +948,7 @@ def execNode : Nat → Node → XM Unit
     | .var e _ => do
       let v ← eval fuel e
       let fr ← cur
-      write (printed (filterApplied b!"safe" fuel e) fr.autoescape v)
+      write (printed (filterApplied b!"safe" e) fr.autoescape v)
     | .tagAutoescape on body => do
       let old := (← cur).autoescape
       modifyCur fun f => { f with autoescape := on }
@@ -991,7 +988,7 @@ def execNode : Nat → Node → XM Unit
         | _ =>
           if asName ≠ [] then modifyCur fun f => { f with priv := f.priv.set asName (.cycleval id v.v v.safe) }
           if !silent then
-            write (printed (filterApplied b!"safe" fuel (args.getD (idx % args.length) default)) (← cur).autoescape v)
+            write (printed (filterApplied b!"safe" (args.getD (idx % args.length) default)) (← cur).autoescape v)
     | .tagExtends => pure ()
     | .tagFilter chain body _ => do
       let out ← buffered (execNodes fuel body)
@@ -1151,7 +1148,7 @@ def firstof : Nat → List Expr → XM Unit
     let v ← eval fuel a
     if v.v.isTrue then
       let fr ← cur
-      write (firstofText (filterApplied b!"safe" fuel a) fr.autoescape v)
+      write (firstofText (filterApplied b!"safe" a) fr.autoescape v)
     else firstof fuel rest
 
 def ifChain : Nat → List Expr → List (List Node) → Nat → XM Unit
